@@ -335,6 +335,23 @@ def run_unit(unit, rng, ctx):
         sys_ = gen.make_site_system(rng, radius_mode=mode, margin=margin, T=int(rng.integers(6, 40)), n_atoms=None)
         radii, f, arg = sys_.radii, sys_.inner_fraction, sys_.site_radius_arg
         disjoint = True
+        exact_history = True
+        if mode == 'dict' and len(arg) >= 2 and rng.uniform() < 0.35:
+            # the dict names only some of the labels (sites of an unnamed label have no radius: never assigned),
+            # and / or gives every named label the same radius
+            arg = dict(arg)
+            radii = np.array(radii, dtype=float)
+            if rng.integers(2):
+                rmin = float(min(arg.values()))
+                arg = {k_: rmin for k_ in arg}
+                radii[:] = rmin
+                ctx.count('radius_dicts_with_equal_values')
+            if rng.integers(2):
+                gone = list(arg)[int(rng.integers(len(arg)))]
+                del arg[gone]
+                radii[np.array(sys_.labels) == gone] = 0.0
+                ctx.count('radius_dicts_not_naming_every_label')
+            exact_history = False
     elif mode == 'overlap':
         sys_ = gen.make_site_system(rng, radius_mode='float', margin=margin, T=int(rng.integers(6, 30)), inner_fraction=float(rng.choice([1.0, 0.5])))
         dmin = np.min(geom.min_image(sys_.matrix, sys_.site_frac, sys_.site_frac)[np.triu_indices(len(sys_.site_frac), 1)])
@@ -442,7 +459,7 @@ def run_unit(unit, rng, ctx):
     cutoff = float(np.max(radii))
     groups = sys_.labels if isinstance(arg, dict) else None
     n_bad, n_known, via = check_assignment(ctx, what, m, pos, sys_.site_frac, radii, f, states, inner, disjoint, cutoff, wit, groups)
-    if mode in ('float', 'dict') and n_bad == 0 and n_known == 0:
+    if mode in ('float', 'dict') and n_bad == 0 and n_known == 0 and (mode != 'dict' or exact_history):
         # margin-controlled atoms: the intended history must be reproduced exactly
         ctx.check(np.array_equal(states[:, :nA], sys_.states_true) and np.array_equal(inner[:, :nA], sys_.inner_true), f'{what}: margin-controlled atoms are not assigned to the sites they were placed in', wit)
     # ---- history: the same argument objects are used again; nothing handed in may be modified ----
